@@ -3,7 +3,7 @@
    specification for every flavour, clock and history, and the consequences
    used by Props/C10.v. *)
 From Coq Require Import ZArith List Bool Arith Lia.
-From Tally Require Import Base.Obs Model.Buckets Model.Timer.
+From Tally Require Import Base.ObsCore Model.Buckets Model.Timer.
 Import ListNotations.
 Open Scope Z_scope.
 
